@@ -8,14 +8,14 @@ claim(
     "static sibling-equivalence: ast normal forms of every sync/async pair compared; MRO pairing rule",
     "Full structural decision under stated assumptions: each of the 79 m/m_async pairs in liquid/ "
     "(methods, module functions, nested defs) has identical normal forms after erasing the async "
-    "surface, is in delegation form, or is one of 6 reviewed-equivalence rows pinned by diff digest; "
+    "surface (and two reviewed axioms with machine-checked side conditions: StringLiteral.evaluate is .value under isinstance, the `is None`/isinstance arms of one chain are order-free), is in delegation form, or is one of 5 reviewed-equivalence rows pinned by diff digest; "
     "no class takes m and m_async from different MRO owners; no built-in implements the optional "
     "async data protocols. Identical code modulo await => identical result or exception for every "
     "template, data and loader (induction on call depth). Holds for all inputs, which sampling "
     "tests cannot give; an edit to one sibling only is reported with the diff.",
     "Trusted: the normaliser (sa/engines/sib.py) erases only await/async/_async-suffix, "
     "docstrings, annotations, local names, keyword order, eager-consumer comprehension kind, "
-    "single-use temporaries, run_in_executor wrappers; the 6 reviewed rows (reasons in "
+    "single-use temporaries, run_in_executor wrappers; the 5 reviewed rows and 2 reviewed axioms (reasons in "
     "sa/props/c01.py); single-task execution; render data without __getitem_async__/filter_async.",
     "DESIGN.md section 4 (SIB), section 5 C01",
 )
